@@ -14,7 +14,7 @@ loader.exec_module(check)
 
 TIE = (" The model is tied to /repo on every run: the Rust harness drives the real library in-process under a deterministic "
        "waker-strict executor, the Lean driver executes the model on the same generated scripts, and the two transcripts must be "
-       "identical (scripts: per-property families, kitchen-sink walks over every cross-cutting dimension, and for C05/C06/C08/C09/C10/C15 "
+       "identical (scripts: per-property families, kitchen-sink walks over every cross-cutting dimension, and for C05-C13 and C15 "
        "reactive-broker scripts expanded against the implementation's own output); independent Python oracles (own MQTT parsers) "
        "judge the implementation's transcripts directly and supply the failing input.")
 TRUST = ("Trusted: Lean 4.33 kernel; axioms propext, Classical.choice, Quot.sound only (audited by #print axioms on every run); the "
